@@ -110,26 +110,37 @@ def rep_count(rep):
     return int(rep[1]) if isinstance(rep, (tuple, list)) else int(rep)
 
 
-def build(prog, rep=1, acq_from=None, root=None, observe=None):
+def build(prog, rep=1, acq_from=None, root=None, observe=None, share_links=False, via_structure=False):
     """Builds a DeclarativeCircuit from a program through DeclarativeCircuit.add only.
     A block entry may carry a fourth element 'top': its measurements are then created against the registry
     of the outermost circuit instead of the block's own registry."""
     circ = DeclarativeCircuit() if rep == 1 else DeclarativeCircuit(repetition_strategy=rep_strategy(rep))
     root = root or circ
     ent, subs = [], []
+    links = {}   # share_links: entries that name the same relation use one RelationLink object (as library code does)
     for e in prog:
         if e[0] == 'op':
             kind, q, rel = e[1], e[2], e[3]
             tag = e[4] if len(e) > 4 else ''
-            link = None if rel is None else RelationLink(ent[rel[1]], RT[rel[0]])
+            if rel is None:
+                link = None
+            elif share_links:
+                key = (rel[0], rel[1])
+                if key not in links:
+                    links[key] = RelationLink(ent[rel[1]], RT[rel[0]])
+                link = links[key]
+            else:
+                link = RelationLink(ent[rel[1]], RT[rel[0]])
             ent.append(circ.add(make_op(kind, q, link, acq_from or circ, tag)))
             subs.append(None)
             if observe is not None:
                 observe(circ)
         elif e[0] == 'sub':
             mode = e[3] if len(e) > 3 else None
-            sb = build(e[2], rep=e[1], acq_from=(root if mode == 'top' else acq_from), root=root, observe=observe)
-            ent.append(circ.add(sb.circ))
+            sb = build(e[2], rep=e[1], acq_from=(root if mode == 'top' else acq_from), root=root, observe=observe,
+                       share_links=share_links, via_structure=via_structure)
+            # via_structure: hand the block's structure (an ICircuitCompositeOperation) to add instead of the DeclarativeCircuit
+            ent.append(circ.add(sb.circ.circuit_structure if via_structure else sb.circ))
             subs.append(sb)
             if observe is not None:
                 observe(circ)
